@@ -6109,7 +6109,8 @@ void Tokenizer::dump(std::ostream &out) const
 
     std::string outs;
 
-    std::set<const Library::Container*> containers;
+    // in the order of their first use so the output does not depend on the addresses
+    std::vector<const Library::Container*> containers;
 
     outs += "  <directivelist>";
     outs += '\n';
@@ -6302,7 +6303,8 @@ void Tokenizer::dump(std::ostream &out) const
                 outs += ' ';
                 outs += vt;
             }
-            containers.insert(tok->valueType()->container);
+            if (tok->valueType()->container && std::find(containers.cbegin(), containers.cend(), tok->valueType()->container) == containers.cend())
+                containers.push_back(tok->valueType()->container);
         }
         if (!tok->varId() && tok->scope()->isExecutable() && Token::Match(tok, "%name% (")) {
             if (mSettings.library.isnoreturn(tok))
@@ -6321,7 +6323,6 @@ void Tokenizer::dump(std::ostream &out) const
     if (mSymbolDatabase)
         mSymbolDatabase->printXml(out);
 
-    containers.erase(nullptr);
     if (!containers.empty()) {
         outs += "  <containers>";
         outs += '\n';
